@@ -19,7 +19,8 @@ TEXT = {
             "(N: UG); input-sized allocations are bounded by a constant (N: AB); every byte the encoder writes with "
             "write_all is valid UTF-8 (S: U8); explicit panic calls are guarded and str byte-offset slicing uses only "
             "offsets that are char boundaries (N: PX); no usize subtraction of the curve length fit can go below zero under "
-            "the symbolically tracked vector lengths (N: LS). Not decided: index/overflow "
+            "the symbolically tracked vector lengths (N: LS); the Bezier scratch vectors are grown for the very slice of control "
+            "points before the code that indexes them, on every path (N: BZ-S). Not decided: index/overflow "
             "panics elsewhere, termination of numeric loops.",
             "error-provenance and swallow dataflow, unsafe-guard dominance, allocation-bound backward slices over MIR"),
     'C02': ("Partial, table level (N): every key the decoder reads is written by the writer of the same section "
@@ -46,7 +47,9 @@ TEXT = {
             "accepted; values are written with plain `{}` (N: K7); a spinner's end time is followed by `,` and a hold's "
             "by `:` by kind alone (N: K8); every begun "
             "record line is ended before the next record (N: K10); event type numbers (K4), slider path letters and "
-            "separators (K5), timing-line column sources (K13). Not decided: that every record line is accepted "
+            "separators (K5), timing-line column sources (K13); no bool is formatted with `{}` in any monomorphised encoder "
+            "function (K14); the hit-object sample suffix parser rejects nothing the number parser accepted (SC-C04). "
+            "Not decided: that every record line is accepted "
             "by its parser (value-level; the known "
             "trailing-type-letter defect F3 is not visible to this technique).",
             "ordered write-event extraction from typed HIR + header-table agreement"),
@@ -105,7 +108,8 @@ TEXT = {
             "Not decided: that is_redundant compares the right values.",
             "sibling-agreement extraction over MIR/HIR against a small expected table"),
     'C14': ("Partial (N): flag constants; kind precedence circle>slider>spinner>hold as a symbolic table over the four kind bits; "
-            "perfect-curve downgrade table and collinearity formula; hit-sound byte -> sample list (primary, layered rule, "
+            "perfect-curve downgrade table and collinearity formula; the path-split loop as a truth table over (repeated point, "
+            "Catmull, index > 1, last index); the sample suffix parser has no rejection of its own; hit-sound byte -> sample list (primary, layered rule, "
             "additions and their order/bank); coordinate/length limits "
             "and truncating casts; repeat cap and node count; node defaults; sample suffix from index >= 2 tested before "
             "the cast; hit-sound low byte; non-negative durations; circle/slider arms "
@@ -120,14 +124,16 @@ TEXT = {
     'C18': ("Strong: kill-before-use (S) of CurveBuffers.path/lengths/vertices from every pub entry point taking the "
             "buffers; cache-invalidation typestate (S) for SliderPath's key fields, curve constructor arguments are "
             "the unmodified key fields; sibling agreement of the curve constructors and accessors (N); the grow-only "
-            "Bezier scratch vectors are only used through element access / upper-bounded ranges (N: BZ); borrow/"
+            "Bezier scratch vectors are only used through element access / upper-bounded ranges (N: BZ) and are grown for the "
+            "segment before they are taken apart, on every path (N: BZ-S); borrow/"
             "privacy facts by compile-fail witnesses (S). Not decided: that Bezier scratch elements below the point "
             "count are written before they are read (index-level).",
             "kill-before-use must-analysis over the mono call graph + dominance check for cache invalidation + "
             "compile_fail witnesses"),
     'C19': ("Partial (N): progress is clamped to [0,1] and multiplied by the last cumulative length; the raw "
             "progress parameter reaches nothing but that clamp; position_at composes progress_to_dist, idx_of_dist, "
-            "interpolate_vertices on (path, lengths); numeric segment search; interpolate_vertices as a symbolic decision "
+            "interpolate_vertices on (path, lengths), every path of it ending in the interpolation or in what the interpolation "
+            "table prescribes under the tests made on the way; numeric segment search; interpolate_vertices as a symbolic decision "
             "table (empty/first/beyond/zero-length segment/lerp with its weight); length fit: as many cumulative lengths as "
             "vertices on every exit and indices in range (vector-length shape analysis), closed form of the fitted end "
             "point; owned and borrowed accessor families resolve to the same free functions. Not decided: arc-length "
